@@ -1094,3 +1094,102 @@ Proof. intros a Ha. cbn in Ha. inversion Ha as [? ? H|? ? ? H _]; destruct H. Qe
 
 Lemma acyclic_inv_l : forall os g, no_rename os = true -> run_ops empty os = Ok g -> acyclic (E (abs g)).
 Proof. intros os g Hnr H. eapply acyclic_history; [apply index_inv_empty|apply acyclic_empty|exact Hnr|exact H]. Qed.
+
+(* ====================================================================== *)
+(* Hist.v *)
+(* ================= the reference operations respect set equality ================= *)
+Lemma rg_eq_refl : forall g, rg_eq g g.
+Proof. intros g. split; intros x; tauto. Qed.
+Lemma rg_eq_trans : forall a b c, rg_eq a b -> rg_eq b c -> rg_eq a c.
+Proof.
+  intros a b c [H1 H2] [H3 H4]. split; intros x; [rewrite (H1 x); apply H3|rewrite (H2 x); apply H4].
+Qed.
+
+Lemma reachb_proper : forall E1 E2 a b, set_eq E1 E2 -> reachb E1 a b = reachb E2 a b.
+Proof.
+  intros E1 E2 a b He. apply bool_eq_iff. rewrite !reachb_spec.
+  split; apply reach_mono; intros e Hin; apply He; exact Hin.
+Qed.
+Lemma has_cycle_proper : forall g1 g2, rg_eq g1 g2 -> has_cycle g1 = has_cycle g2.
+Proof.
+  intros g1 g2 [_ He]. apply bool_eq_iff. rewrite !has_cycle_spec.
+  split; intros [a Ha]; exists a; revert Ha; apply reach_mono; intros e Hin; apply He; exact Hin.
+Qed.
+Lemma closed_proper : forall g1 g2, rg_eq g1 g2 -> closed g1 = closed g2.
+Proof.
+  intros g1 g2 [Hv He]. apply bool_eq_iff. rewrite !closed_spec.
+  split; intros H a b Hin; apply Hv; apply (H a b); apply He; exact Hin.
+Qed.
+Lemma meme_proper : forall (E1 E2 : list (Z * Z)) e, set_eq E1 E2 -> meme e E1 = meme e E2.
+Proof. intros E1 E2 e He. apply bool_eq_iff. rewrite !meme_In. apply He. Qed.
+
+Lemma r_add_proper : forall g1 g2 p, rg_eq g1 g2 -> rg_eq (r_add g1 p) (r_add g2 p).
+Proof.
+  intros g1 g2 p [Hv He]. split; cbn [r_add V E]; [|exact He].
+  intros x. rewrite !set_insert_In. rewrite (Hv x). tauto.
+Qed.
+Lemma r_inc_proper : forall g1 g2 r d, rg_eq g1 g2 ->
+  fst (r_inc g1 r d) = fst (r_inc g2 r d) /\ rg_eq (snd (r_inc g1 r d)) (snd (r_inc g2 r d)).
+Proof.
+  intros g1 g2 r d Hg. pose proof (r_add_proper g1 g2 r Hg) as Ha. unfold r_inc.
+  destruct (Z.eqb r d); [split; [reflexivity|exact Ha]|].
+  rewrite (reachb_proper (E (r_add g1 r)) (E (r_add g2 r)) d r (proj2 Ha)).
+  destruct (reachb (E (r_add g2 r)) d r); [split; [reflexivity|exact Ha]|].
+  cbn [fst snd]. split; [reflexivity|]. split; cbn [V E]; [exact (proj1 Ha)|].
+  rewrite (meme_proper _ _ (r, d) (proj2 Ha)). destruct Ha as [_ He]. cbn [r_add E] in *.
+  destruct (meme (r, d) (E g2)); [exact He|]. intros e. rewrite !in_app_iff. rewrite (He e). tauto.
+Qed.
+Lemma r_remove_proper : forall g1 g2 p, rg_eq g1 g2 -> rg_eq (r_remove g1 p) (r_remove g2 p).
+Proof.
+  intros g1 g2 p [Hv He]. split; cbn [r_remove V E]; intros x.
+  - rewrite !set_remove_In, (Hv x). tauto.
+  - rewrite !filter_In, (He x). tauto.
+Qed.
+Lemma r_rename_proper : forall g1 g2 a b, rg_eq g1 g2 -> rg_eq (r_rename g1 a b) (r_rename g2 a b).
+Proof.
+  intros g1 g2 a b [Hv He]. split; cbn [r_rename V E]; intros x.
+  - rewrite !in_map_iff. split; intros [y [Hy Hin]]; exists y; (split; [exact Hy|apply Hv; exact Hin]).
+  - rewrite !dedup_e_In, !in_map_iff. split; intros [y [Hy Hin]]; exists y; (split; [exact Hy|apply He; exact Hin]).
+Qed.
+
+Lemma r_step_proper : forall g1 g2 o, rg_eq g1 g2 ->
+  fst (r_step g1 o) = fst (r_step g2 o) /\ rg_eq (snd (r_step g1 o)) (snd (r_step g2 o)).
+Proof.
+  intros g1 g2 o Hg. destruct o as [p|r d|p|a b|]; cbn [r_step fst snd].
+  - split; [reflexivity|apply r_add_proper; exact Hg].
+  - apply r_inc_proper. exact Hg.
+  - split; [reflexivity|apply r_remove_proper; exact Hg].
+  - split; [reflexivity|apply r_rename_proper; exact Hg].
+  - split; [|exact Hg]. unfold sort_expected.
+    rewrite (has_cycle_proper g1 g2 Hg), (closed_proper g1 g2 Hg). reflexivity.
+Qed.
+
+(* ================= refinement along histories ================= *)
+Lemma refine_history : forall os g rg g', index_inv g -> rg_eq (abs g) rg -> hist_ok g os = true ->
+  run_ops g os = Ok g' -> index_inv g' /\ rg_eq (abs g') (r_run rg os).
+Proof.
+  induction os as [|o os IH]; intros g rg g' Hinv Hg Hok H; cbn [run_ops r_run] in *.
+  - inversion H; subst g'. auto.
+  - cbn [hist_ok] in Hok. apply andb_true_iff in Hok. destruct Hok as [Ho Hr].
+    destruct (step g o) as [x| |] eqn:Hx; try discriminate. cbn [bind] in H.
+    destruct (abs_step_l g o x Hinv Ho Hx) as [Hs _].
+    apply (IH (snd x) _ g'); [eapply index_inv_step; eassumption| |exact Hr|exact H].
+    eapply rg_eq_trans; [exact Hs|]. apply r_step_proper. exact Hg.
+Qed.
+
+Lemma refine_ops_l : forall os, hist_ok empty os = true ->
+  exists g, run_ops empty os = Ok g /\ index_inv g /\ rg_eq (abs g) (r_run rempty os) /\
+    (forall a b, depends_on g a b = Ok (q_depends_on (r_run rempty os) a b)) /\
+    (forall a b, deep_depends_on g a b = Ok (q_deep (r_run rempty os) a b)) /\
+    (forall p, set_eq (children g p) (q_children (r_run rempty os) p)).
+Proof.
+  intros os Hok. destruct (run_ops_empty_inv os Hok) as [g [Hr Hi]]. exists g. split; [exact Hr|].
+  destruct (refine_history os empty rempty g index_inv_empty (rg_eq_refl _) Hok Hr) as [_ Hg].
+  split; [exact Hi|]. split; [exact Hg|]. destruct (queries_agree_l g Hi) as [Q1 [Q2 [Q3 _]]].
+  split; [|split].
+  - intros a b. rewrite Q1. f_equal. unfold q_depends_on. apply meme_proper. exact (proj2 Hg).
+  - intros a b. rewrite Q2. f_equal. unfold q_deep. apply reachb_proper. exact (proj2 Hg).
+  - intros p x. rewrite (Q3 p x). unfold q_children. rewrite !in_map_iff.
+    split; intros [e [He Hin]]; exists e; (split; [exact He|]); apply filter_In in Hin; apply filter_In;
+      (split; [apply (proj2 Hg); exact (proj1 Hin)|exact (proj2 Hin)]).
+Qed.
